@@ -24,7 +24,9 @@ RULE = (
     "source}; the same product (without checkout) for a .dir-suffixed id whose intact controls are left "
     "unprotected (0o644) so that they are really hashed; the re-checkout product: checkout of the object (file target without/with a state, or a directory "
     "target listing it) while intact, then the change, then the same checkout again on the same store directory - "
-    "with the same odb object and with a re-created one; plus seeded random histories (6-14 steps) over add/check/oids_exist/checkout/tamper (also "
+    "with the same odb object and with a re-created one; the fault product: removal of the objects of one shard directory (the target's or the "
+    "bystander's) raises PermissionError, x tampers/intact x state entry x class x {check, oids_exist, checkout file "
+    "without/with state, checkout dir, add(verify)}; plus seeded random histories (6-14 steps, one in five with such a fault) over add/check/oids_exist/checkout/tamper (also "
     "keeping 0o444, other modes, mtime-restoring)/plant under a wrong name/delete/hash/foreign state row/"
     "wipe, ids with and without the .dir suffix. A case is non-trivial when a query met a mismatching "
     "object or an object with a state row."
@@ -36,12 +38,14 @@ ASSUMPTIONS = [
     "the quantifier and are not judged by the oracle)",
     "a Local object whose mode is exactly 0o444 is trusted (the property's `not write-protected`)",
     "object ids of one add call are pairwise distinct; sources exist; copies do not fail",
+    "the order in which diff() checks the entries of a directory target (iteration of a Python set) is observed "
+    "and passed to the model; the theorems hold for every order",
     "_checksum (fsspec tokenize of [ino, mtime, size]) is injective on the tokens in play",
     "files created by the implementation get an mtime strictly above every earlier one (the harness spins "
     "on the kernel's coarse clock before each add)",
 ]
 
-IMPORTS = "From Coq Require Import NArith List.\nFrom DvcData Require Import Model.Integrity."
+IMPORTS = "From Coq Require Import NArith List.\nFrom DvcData Require Import Model.Integrity Model.IntegrityFault."
 
 POOL = [b"alpha-1", b"beta-22", b"", b"gamma gamma gamma", b"d", b"ALPHA-1"]
 MODES = [0o644, 0o444, 0o600, 0o664, 0o400]
@@ -88,9 +92,41 @@ class Real:
         self.state_on = case["state"]
         self._State, self._StateNoop = State, StateNoop
         self.state = self._mkstate()
-        self.odb = impl.make_odb(self.cls, self.store, state=self.state, verify=case.get("verify", False))
+        self.fault = case.get("fault")  # 2-character shard whose objects cannot be removed, or None
+        self.fs = self._mkfs()
+        self.odb = self.mk_odb()
         os.makedirs(self.store, exist_ok=True)
         self.known = set()  # oids ever touched
+
+    def _mkfs(self):
+        """the store's own file system object; with a fault, removing anything below the chosen shard
+        directory raises PermissionError (read-only / foreign-owned shard of a shared cache)"""
+        from dvc_objects.fs.local import LocalFileSystem
+
+        fs = LocalFileSystem()
+        if self.fault:
+            shard = os.path.join(os.path.abspath(self.store), self.fault) + os.sep
+            real_remove = fs.remove
+
+            def remove(path, *a, **kw):
+                for q in ([path] if isinstance(path, str) else list(path)):
+                    if os.path.abspath(q).startswith(shard):
+                        raise PermissionError(13, "Permission denied", q)
+                return real_remove(path, *a, **kw)
+
+            fs.remove = remove
+            fs.rm = remove
+        return fs
+
+    def mk_odb(self):
+        from dvc_data.hashfile.db import HashFileDB
+        from dvc_data.hashfile.db.local import LocalHashFileDB
+
+        k = LocalHashFileDB if self.cls == "local" else HashFileDB
+        return k(self.fs, os.path.abspath(self.store), state=self.state, verify=self.case.get("verify", False))
+
+    def faulty(self, oid):
+        return bool(self.fault) and oid[:2] == self.fault
 
     def _mkstate(self):
         """one real State (sqlite) is shared by all cases of a run: rows are keyed by absolute path and
@@ -184,7 +220,7 @@ def tok_term(st):
 
 def exc_code(exc):
     n = type(exc).__name__
-    return {"FileNotFoundError": 2, "ObjectFormatError": 3, "CheckoutError": 5}.get(n, 99)
+    return {"FileNotFoundError": 2, "ObjectFormatError": 3, "CheckoutError": 5, "PermissionError": 98}.get(n, 99)
 
 
 def tamper_bytes(pattern, old, other):
@@ -258,7 +294,7 @@ def run_case(ctx, case):
                     n = R.odb.add(paths, localfs, oids, on_error=lambda o, e: errs.append((o, exc_code(e))), **kw)
                     res = ("ok", n)
                 except Exception as exc:  # noqa: BLE001
-                    res = ("exc", type(exc).__name__)
+                    res = ("abort", 98) if (R.fault and exc_code(exc) == 98) else ("exc", type(exc).__name__)
                 post = R.snap()
                 its = []
                 for o, (_, sk) in zip(oids, items):
@@ -274,6 +310,9 @@ def run_case(ctx, case):
                     outs.append(vL([vN(2), vN(res[1]), vL([vB(o) for o, _ in errs])]))
                     if any(c != 3 for _, c in errs):
                         fail("C07:add-unexpected-error", f"add reported {errs}")
+                elif res[0] == "abort":
+                    outs.append(ABORT)
+                    tags.add("fault:add-aborted")
                 else:
                     outs.append(vL([vN(99)]))
                     fail("C07:add-raised:" + res[1], f"add raised {res[1]}")
@@ -307,13 +346,15 @@ def run_case(ctx, case):
                 outs.append(vL([vN(1), vN(code)]))
                 p, q = pre[o], post[o]
                 judge_unharmed(pre, post, "check")
+                if code == 98:
+                    tags.add("fault:check-aborted")
                 if p["exists"] and (not p["intact"] or p["row"]):
                     nontrivial = True
                 if tampered(p):
                     tags.add("check:tampered")
-                    if code != 3:
+                    if code != 3 and not (code == 98 and R.faulty(o)):
                         fail("C07:corrupt-accepted:check", f"check({o}) returned code {code} for a mismatching, unprotected object")
-                    if q["exists"]:
+                    if q["exists"] and not R.faulty(o):
                         fail("C07:corrupt-not-deleted:check", f"check({o}) left the mismatching object in the store")
                 elif p["exists"] and p["intact"] and p["honest"]:
                     tags.add("check:intact")
@@ -333,10 +374,14 @@ def run_case(ctx, case):
                     ok = True
                 except Exception as exc:  # noqa: BLE001
                     got, ok = [], False
-                    fail("C07:oids_exist-raised:" + type(exc).__name__, "oids_exist raised")
+                    if R.fault and exc_code(exc) == 98:
+                        ok = None  # the failed removal left the query: an error, nothing reported
+                        tags.add("fault:exist-aborted")
+                    else:
+                        fail("C07:oids_exist-raised:" + type(exc).__name__, "oids_exist raised")
                 post = R.snap()
                 ops_t.append(ctor("OExist", clist([cbytes(o) for o in oids])))
-                outs.append(vL([vN(3), vL([vB(o) for o in got])]) if ok else vL([vN(99)]))
+                outs.append(vL([vN(3), vL([vB(o) for o in got])]) if ok else (ABORT if ok is None else vL([vN(99)])))
                 judge_unharmed(pre, post, "oids_exist")
                 for o in oids:
                     p, q = pre[o], post[o]
@@ -346,11 +391,11 @@ def run_case(ctx, case):
                         tags.add("exist:tampered")
                         if o in got:
                             fail("C07:corrupt-accepted:oids_exist", f"oids_exist reported mismatching object {o}")
-                        if q["exists"]:
+                        if q["exists"] and not R.fault:
                             fail("C07:corrupt-not-deleted:oids_exist", f"oids_exist left mismatching object {o}")
                     elif p["exists"] and p["intact"] and p["honest"]:
                         tags.add("exist:intact")
-                        if o not in got:
+                        if o not in got and ok is not None:
                             fail("C07:intact-rejected:oids_exist", f"oids_exist dropped intact object {o}")
             elif kind == "checkout":
                 o = oid_of(op[1])
@@ -377,16 +422,19 @@ def run_case(ctx, case):
                     with open(dest, "rb") as f:
                         got = f.read()
                 ops_t.append(ctor("OCheckout", cbytes(o)))
-                outs.append(vL([vN(4), vN(code), vopt(got, vB)]))
+                aborted = bool(R.fault) and code == 98
+                if aborted:
+                    tags.add("fault:checkout-aborted")
+                outs.append(ABORT if aborted else vL([vN(4), vN(code), vopt(got, vB)]))
                 p = pre[o]
                 judge_unharmed(pre, post, "checkout")
                 if p["exists"] and (not p["intact"] or p["row"]):
                     nontrivial = True
                 if tampered(p):
                     tags.add("checkout:tampered")
-                    if code != 5 or got is not None:
+                    if (code != 5 and not aborted) or got is not None:
                         fail("C07:corrupt-materialised", f"checkout of mismatching object {o}: code {code}, workspace file {'present' if got is not None else 'absent'}")
-                    if post[o]["exists"]:
+                    if post[o]["exists"] and not R.faulty(o):
                         fail("C07:corrupt-not-deleted:checkout", f"checkout left mismatching object {o} in the cache")
                 elif p["exists"] and p["intact"] and p["honest"]:
                     tags.add("checkout:intact")
@@ -407,16 +455,34 @@ def run_case(ctx, case):
                 pre = R.snap()
                 R.wsn += 1
                 dest = os.path.join(R.ws, f"dir{R.wsn}")
+                # diff() walks a SET of keys: the order in which the entries are checked is the
+                # implementation's internal choice; it is observed and handed to the model (it only
+                # matters when a failing removal leaves the operation half-way)
+                order = []
+                orig_check = R.odb.check
+
+                def rec_check(oid_, *a_, **kw_):
+                    order.append(oid_)
+                    return orig_check(oid_, *a_, **kw_)
+
+                R.odb.check = rec_check
                 try:
                     checkout(dest, localfs, tree, R.odb, state=None, quiet=True)
                     code = 0
                 except Exception as exc:  # noqa: BLE001
                     code = exc_code(exc)
+                finally:
+                    del R.odb.check
+                ents_m = sorted(ents, key=lambda e: order.index(e[1]) if e[1] in order else len(order))
                 post = R.snap()
                 got = impl.walk_files(dest) if os.path.isdir(dest) else {}
                 ops_t.append(ctor("OCheckoutDir", cbytes(d),
-                                  clist(["(%s, %s)" % (cbytes(nm), cbytes(o)) for nm, o in ents])))
-                outs.append(vL([vN(6), vN(code), vL([vL([vB(nm), vB(b)]) for nm, b in sorted(got.items())])]))
+                                  clist(["(%s, %s)" % (cbytes(nm), cbytes(o)) for nm, o in ents_m])))
+                aborted = bool(R.fault) and code == 98
+                if aborted:
+                    tags.add("fault:checkoutdir-aborted")
+                outs.append(ABORT if aborted else
+                            vL([vN(6), vN(code), vL([vL([vB(nm), vB(b)]) for nm, b in sorted(got.items())])]))
                 judge_unharmed(pre, post, "checkout")
                 for nm, o in ents:
                     p = pre[o]
@@ -424,17 +490,17 @@ def run_case(ctx, case):
                         nontrivial = True
                     if tampered(p):
                         tags.add("checkoutdir:tampered")
-                        if code != 5 or nm in got:
+                        if (code != 5 and not aborted) or nm in got:
                             fail("C07:corrupt-materialised", f"directory checkout with mismatching object {o} at {nm}: code {code}, workspace file {'present' if nm in got else 'absent'}")
-                        if post[o]["exists"]:
+                        if post[o]["exists"] and not R.fault:
                             fail("C07:corrupt-not-deleted:checkout", f"directory checkout left mismatching object {o} in the cache")
                     elif p["exists"] and p["intact"] and p["honest"]:
                         tags.add("checkoutdir:intact")
-                        if got.get(nm) != p["bytes"]:
+                        if got.get(nm) != p["bytes"] and not aborted:
                             fail("C07:intact-not-materialised", f"directory checkout did not materialise intact object {o} at {nm}")
             elif kind == "reopen":
                 # a new odb object on the same store directory (same state): no model step
-                R.odb = impl.make_odb(R.cls, R.store, state=R.state, verify=case.get("verify", False))
+                R.odb = R.mk_odb()
                 tags.add("env:reopen")
             elif kind in ("tamper", "plant"):
                 if kind == "tamper":
@@ -532,9 +598,11 @@ def run_case(ctx, case):
     tbl = clist(["(%s, %s)" % (cbytes(b), cbytes(h)) for b, h in sorted(table.items())])
     inp = ctor("Case", "Local" if case["cls"] == "local" else "Base", cbool(case["state"]),
                cbool(case.get("verify", False)), cN(0o666 & ~UMASK), tbl, clist(ops_t))
+    inp = ctor("FCase", inp, copt(case.get("fault"), cbytes))
     return inp, exp, problems, nontrivial, tags
 
 
+ABORT = vL([vN(1), vN(98)])   # the operation was left by the OSError of a failed removal
 UMASK = os.umask(0)
 os.umask(UMASK)
 
@@ -597,6 +665,35 @@ def product_cases(full=True):
                                 ["exist", [TD, [3, ".dir"], [4, ".dir"]]]]
                     out.append({"cls": cls, "state": entry != "noop", "verify": False, "ops": ops,
                                 "tag": f"dir:{pattern}/{entry}/{query}"})
+    # fault stream: removing the objects of one shard directory fails with PermissionError; a query
+    # on a tampered object of that shard must still not serve it (any error is an acceptable refusal)
+    DIRQ = [["t", T], ["b", B]]
+    fchanges = [("append", 0o644), ("replace", 0o644), ("none", None), ("rewrite", 0o644), ("truncate", 0o644), ("empty", 0o644)]
+    for cls in ("local", "base"):
+        for pattern, mode in (fchanges if full else fchanges[:3]):
+            for entry in (("noop", "warm", "stale") if full else ("noop", "stale")):
+                for query in ("check", "exist", "checkout", "checkoutst", "checkoutdir", "addverify"):
+                    for shard_of in ((T, B) if (full or (pattern == "append" and entry == "stale")) else (T,)):
+                        ops = [["add", None, [[T, 0], [B, 1]]]]
+                        if pattern != "none":
+                            ops.append(["tamper", T, pattern, mode, 3])
+                        if entry == "warm":
+                            ops.append(["hash", T])
+                        if query == "check":
+                            ops += [["check", T], ["check", B], ["check", T]]
+                        elif query == "exist":
+                            ops += [["exist", [B, T, [-1, ""]]], ["exist", [T, B]]]
+                        elif query == "checkout":
+                            ops += [["checkout", T], ["checkout", B], ["checkout", T]]
+                        elif query == "checkoutst":
+                            ops += [["checkout", T, True], ["checkout", B, True]]
+                        elif query == "checkoutdir":
+                            ops += [["checkoutdir", DIRQ], ["checkoutdir", [["b", B]]], ["checkout", T]]
+                        else:
+                            ops += [["add", True, [[B, 1], [T, 0], [O, 4]]], ["check", T], ["add", True, [[O, 4]]]]
+                        out.append({"cls": cls, "state": entry != "noop", "verify": False, "ops": ops,
+                                    "fault": oid_of(shard_of)[:2],
+                                    "tag": f"fault:{pattern}/{entry}/{query}/{'target' if shard_of is T else 'bystander'}"})
     # checkout while intact, then the change, then checkout again: same oid, same store directory,
     # with the same odb object and with a re-created one; file targets and directory targets
     DIR = [["t", T], ["b", B]]
@@ -691,7 +788,10 @@ def random_case(rng):
         motif.append(look())
         at = rng.randint(1, len(ops))
         ops[at:at] = motif
-    return {"cls": cls, "state": rng.random() < 0.85, "verify": rng.random() < 0.3, "ops": ops, "tag": "random"}
+    c = {"cls": cls, "state": rng.random() < 0.85, "verify": rng.random() < 0.3, "ops": ops, "tag": "random"}
+    if rng.random() < 0.2:
+        c["fault"] = oid_of([rng.randrange(5), ""])[:2]
+    return c
 
 
 def load_corpus():
@@ -731,11 +831,13 @@ def run(ctx):
     ctx.obligation("oracle:integrity", not any(v.kind == "oracle" for v in ctx.violations),
                    f"{len(items)} histories on the real store judged step by step against independent ground truth")
     need = {"check:tampered", "check:intact", "exist:tampered", "exist:intact", "checkout:tampered",
-            "checkout:intact", "checkoutdir:tampered", "checkoutdir:intact", "env:reopen", "add:verify"}
+            "checkout:intact", "checkoutdir:tampered", "checkoutdir:intact", "env:reopen", "add:verify",
+            "fault:check-aborted", "fault:exist-aborted", "fault:checkout-aborted", "fault:checkoutdir-aborted",
+            "fault:add-aborted"}
     ctx.obligation("generator:coverage", need <= seen_tags, "missing: " + ", ".join(sorted(need - seen_tags)))
     if not need <= seen_tags:
         ctx.broken("correspondence", "generator:coverage", "the generators no longer reach " + ", ".join(sorted(need - seen_tags)))
-    ctx.correspond("integrity", IMPORTS, "case", "enc_run", items, shard=64)
+    ctx.correspond("integrity", IMPORTS, "fcase", "fenc_run", items, shard=64)
 
 
 def replay_case(ctx, case):
